@@ -384,6 +384,27 @@ func (f *Frame) typeAssert(x *ssa.TypeAssert) {
 			}
 		}
 	}
+	if !known && !x.CommaOk {
+		// field invariant "bool field true => the interface field's value implements the asserted
+		// type" (established in the constructors, cfg.go), with the bool field proven true here
+		if ld, ok := x.X.(*ssa.UnOp); ok && ld.Op == token.MUL {
+			if fa, ok := ld.X.(*ssa.FieldAddr); ok {
+				if tn, ok := deref(fa.X.Type()).(*types.Named); ok {
+					for _, inv := range fieldAssertInvariants(f.an.ctx) {
+						if inv.tn != tn || inv.ifaceFld != fa.Field || !types.Identical(inv.asserted, x.AssertedType) {
+							continue
+						}
+						if p, ok := f.val(fa.X).(APtr); ok && p.obj != nil {
+							st := tn.Underlying().(*types.Struct)
+							if bv, ok := f.loadPath(p.obj, pathStr(p.path, inv.boolFld), st.Field(inv.boolFld).Type(), x).(ABool); ok && f.state().entailsForm(bv.f) {
+								known = true
+							}
+						}
+					}
+				}
+			}
+		}
+	}
 	if !x.CommaOk {
 		if _, isIface := x.AssertedType.Underlying().(*types.Interface); !isIface || true {
 			if !known {
